@@ -60,6 +60,11 @@ def hCylChamfer : Handler := fun args impl => do
                       ("centred", oTree (Parts.externalCylinderChamfer size over radius height seg true))]
   let t ← impl.parse "uncentred" treeF
   let mut fails : List String := []
+  -- the centred form is the un-centred one moved down by half the height: both rings keep their
+  -- relative placement (the top one stays the mirror image of the bottom one about mid-height)
+  let tc ← impl.parse "centred" treeF
+  if !sameTree tc (Scad.node (.translate ⟨F!(0.0), F!(0.0), -height / F!(2.0)⟩) [t]) then
+    fails := fails ++ ["centred_chamfer_is_not_the_uncentred_one_moved_by_half_the_height"]
   match t with
   | .mk .union cs =>
     match cs.toList with
